@@ -1,6 +1,6 @@
 (** C09 - Socket.IO encoding round-trips, matches the v5 format, leaves its input intact.
     This file holds statements only; every proof is `exact <lemma>`. *)
-From SioV Require Import Base.GoSem Sio.Json Sio.JsonProofs Sio.Header Sio.HeaderProofs Sio.Binary Sio.BinaryProofs Sio.Codec Sio.CodecProofs Sio.RoundtripProofs Sio.ReconProofs Sio.DecodeProofs.
+From SioV Require Import Base.GoSem Sio.Json Sio.JsonProofs Sio.Header Sio.HeaderProofs Sio.Binary Sio.BinaryProofs Sio.Codec Sio.CodecProofs Sio.RoundtripProofs Sio.ReconProofs Sio.DecodeProofs Sio.PrescanProofs.
 
 (** Encode hands back the value it was given exactly as it was (every cell deconstruct overwrote
     with a placeholder is restored), for every JSON library, value tree of any depth, header and
@@ -186,3 +186,51 @@ Proof. exact jprint_arr_head. Qed.
     arrays and objects of any depth and width) printed by [jprint] is read back by [jparse]. *)
 Theorem C09_H1_jprint : forall v, jparse (jprint v) = Some v.
 Proof. exact jparse_jprint. Qed.
+
+(** H2 for the instance = the pre-scan finds every name: for every event name (any bytes,
+    double quotes and backslashes included, e.g. a name ending in a backslash) and any further arguments, the
+    pre-scan (C10's port of the loop in parseHeader) of the payload [jprint] writes cuts out
+    exactly the name's string literal, and [jparse] of the bracketed literal is the name. *)
+Theorem C09_prescan_name :
+  forall name rest,
+  exists tmp, prescan (jprint (JArr (JStr name :: rest))) = Ok tmp /\
+              jparse tmp = Some (JArr [JStr name]).
+Proof. exact prescan_name. Qed.
+
+(** decode after encode with NO hypothesis about the JSON library: the instance jprint / jparse
+    (compared with encoding/json byte for byte on every run) satisfies H1, H2, H3. *)
+Theorem C09_decode_encode_concrete :
+  forall (max_att : Z) h x e tys name sargs,
+  wfv x = true -> h_type h = 2%N -> hb 2 x = true ->
+  shape x = BArr (BStr name :: sargs) -> args_ok tys sargs = true ->
+  header_ok (e_header e) ->
+  encode jprint jparse max_att h (Some x) = Ok e ->
+  exists p atts,
+    e_frames e = (encode_header (e_header e) ++ p) :: atts /\
+    atts = leaves (shape x) /\
+    e_header e = mkHeader 5 (h_nsp h) (h_id h) (Z.of_nat (length atts)) /\
+    feed jparse None 0 (e_frames e) = Ok ([(length atts, (e_header e, name, p :: atts))], None) /\
+    decode jprint jparse (e_header e) (p :: atts) tys = Ok (views tys sargs).
+Proof. exact (fun m => decode_encode_event jprint jparse m jparse_jprint prescan_name jprint_arr_head). Qed.
+
+Theorem C09_decode_encode_ack_concrete :
+  forall (max_att : Z) h x e tys sargs,
+  wfv x = true -> h_type h = 3%N -> hb 2 x = true ->
+  shape x = BArr sargs -> args_ok tys sargs = true ->
+  header_ok (e_header e) ->
+  encode jprint jparse max_att h (Some x) = Ok e ->
+  exists p atts,
+    e_frames e = (encode_header (e_header e) ++ p) :: atts /\
+    atts = leaves (shape x) /\
+    e_header e = mkHeader 6 (h_nsp h) (h_id h) (Z.of_nat (length atts)) /\
+    feed jparse None 0 (e_frames e) = Ok ([(length atts, (e_header e, [], p :: atts))], None) /\
+    decode jprint jparse (e_header e) (p :: atts) tys = Ok (views tys sargs).
+Proof. exact (fun m => decode_encode_ack jprint jparse m jparse_jprint prescan_name jprint_arr_head). Qed.
+
+(** The wire format and the deconstruct / reconstruct round trip for the instance. *)
+Theorem C09_wire_is_v5_concrete :
+  forall (max_att : Z) h x e,
+  wfv x = true -> pkt_ok h x = true -> h_nsp h <> [] ->
+  encode jprint jparse max_att h (Some x) = Ok e ->
+  e_frames e = spec_frames jprint (base_type (h_type h)) (h_nsp h) (h_id h) (Some (shape x)).
+Proof. exact (wire_is_v5 jprint jparse jparse_jprint). Qed.
